@@ -41,60 +41,89 @@ func Generate(t *rapid.T, cfg *Config) *Program {
 	}
 	body := g.mainBody(n)
 
-	var sb strings.Builder
-	sb.WriteString("package main\n\nimport (\n\t\"fmt\"\n")
+	parts := Parts{Imports: []string{"fmt"}, Main: g.mainStmts}
 	if g.needSort {
-		sb.WriteString("\t\"sort\"\n")
+		parts.Imports = append(parts.Imports, "sort")
 	}
-	sb.WriteString(")\n\n")
 	for _, st := range g.U.Structs {
-		fmt.Fprintf(&sb, "type %s struct {\n", st.Name)
+		var b strings.Builder
+		fmt.Fprintf(&b, "type %s struct {\n", st.Name)
 		for _, f := range st.Fields {
-			fmt.Fprintf(&sb, "\t%s %s\n", f.Name, f.Type.Name)
+			fmt.Fprintf(&b, "\t%s %s\n", f.Name, f.Type.Name)
 		}
-		sb.WriteString("}\n\n")
+		b.WriteString("}\n")
+		parts.Types = append(parts.Types, b.String())
 	}
 	for _, v := range g.globals {
 		lit, _ := g.lit(v.T, 0)
-		fmt.Fprintf(&sb, "var %s %s = %s\n", v.Name, v.T.Name, lit)
+		parts.Globals = append(parts.Globals, fmt.Sprintf("var %s %s = %s\n", v.Name, v.T.Name, lit))
 	}
-	sb.WriteString("\n")
 	if g.needIdx {
-		sb.WriteString("func idx(i, n int) int {\n\ti %= n\n\tif i < 0 {\n\t\ti += n\n\t}\n\treturn i\n}\n\n")
+		parts.Funcs = append(parts.Funcs, "func idx(i, n int) int {\n\ti %= n\n\tif i < 0 {\n\t\ti += n\n\t}\n\treturn i\n}\n")
 	}
 	if g.needIdent {
-		sb.WriteString("func identInt(x int) int { return x }\n\n")
+		parts.Funcs = append(parts.Funcs, "func identInt(x int) int { return x }\n")
 	}
 	for _, h := range g.newHelpers() {
-		sb.WriteString(h)
+		parts.Funcs = append(parts.Funcs, strings.TrimSuffix(h, "\n"))
 	}
-	for _, d := range decls {
+	parts.Funcs = append(parts.Funcs, decls...)
+
+	var sb strings.Builder
+	sb.WriteString("package main\n\nimport (\n")
+	for _, im := range parts.Imports {
+		fmt.Fprintf(&sb, "\t%q\n", im)
+	}
+	sb.WriteString(")\n\n")
+	for _, d := range parts.Types {
+		sb.WriteString(d + "\n")
+	}
+	for _, d := range parts.Globals {
 		sb.WriteString(d)
-		sb.WriteString("\n")
+	}
+	sb.WriteString("\n")
+	for _, d := range parts.Funcs {
+		sb.WriteString(d + "\n")
 	}
 	sb.WriteString("func main() {\n")
 	sb.WriteString(body)
 	sb.WriteString("}\n")
-	src := sb.String()
-	// helper constructors for pointers to basic values are emitted on demand
-	return &Program{Src: src, Used: g.used, Faulty: g.faulty}
+	return &Program{Src: sb.String(), Used: g.used, Faulty: g.faulty, Parts: parts}
+}
+
+// Parts are the pieces of a program, for piecewise evaluation: Main holds the
+// top-level statements of main, one entry per statement (possibly compound).
+type Parts struct {
+	Imports []string
+	Types   []string
+	Globals []string
+	Funcs   []string
+	Main    []string
 }
 
 func (g *Gen) mainBody(n int) string {
-	o := &out{ind: 1}
 	g.push()
 	g.blockID++
 	id := g.blockID
+	var all strings.Builder
+	one := func(f func(o *out)) {
+		o := &out{ind: 1}
+		f(o)
+		if o.sb.Len() > 0 {
+			g.mainStmts = append(g.mainStmts, o.sb.String())
+			all.WriteString(o.sb.String())
+		}
+	}
 	// a few initial variables so that expressions have material
 	for i := 0; i < 3; i++ {
-		g.declStmt(o, 2)
+		one(func(o *out) { g.declStmt(o, 2) })
 	}
 	for i := 0; i < n; i++ {
-		g.stmt(o, g.cfg.MaxDepth)
+		one(func(o *out) { g.stmt(o, g.cfg.MaxDepth) })
 	}
-	g.endBlock(o, id)
+	one(func(o *out) { g.endBlock(o, id) })
 	g.pop()
-	return o.sb.String()
+	return all.String()
 }
 
 // newHelpers returns the constructor helpers `newT(v T) *T` that the program
